@@ -405,6 +405,14 @@ def stretch(o, k):
     return c
 
 
+def prop_excess(o):
+    """by how many ms the observed duration exceeds the property's own bound including its fixed slack (<= 0: it does not)"""
+    if o.get("e2e"):
+        return o["dur_ms"] - (4 * o["tdata"] + 600)
+    b = time_bound(o)
+    return -1.0 if b is None else o["dur_ms"] - (b + SLACK_MS)
+
+
 def time_only(o):
     """the property fails on this observation only because of a measured duration (never for a HANG)"""
     why = spec_on_impl(o)
@@ -447,9 +455,17 @@ def settle(ctx, rows, tag):
     # again with their whole timing (timeouts, delays, cancellation) stretched x4, then x8: the model is invariant under
     # scaling of time, the starvation delay is not.  The stretched observation replaces the original one (class suffix
     # " [timing xK]") and is judged like any other.
+    # Stretching may only excuse a case when (a) starvation was actually MEASURED while that very case ran, (b) what is
+    # wrong is the OUTCOME (a timeout where the model has none) -- a duration that exceeds a bound is never stretched away,
+    # the duration stage below deals with it -- and (c) the timeouts are short (a configured timeout of seconds is not
+    # what starvation defeats).
     def starved(i):
         o = rows[i]
-        return load_ms(o) > LOW_JITTER_MS and (o["obs"] in (2, 6) or (o.get("e2e") and o["obs"] == 1))
+        if load_ms(o) <= LOW_JITTER_MS or max(o["tdial"], o["tdata"]) > 1000:
+            return False
+        why = spec_on_impl(o)
+        outcome_wrong = (1 in hard(i)) or (bool(why) and not time_only(o))
+        return outcome_wrong and (o["obs"] in (2, 6) or (bool(o.get("e2e")) and o["obs"] == 1))
 
     stretch_base = {}
     for k in (4, 8):
@@ -492,6 +508,8 @@ def settle(ctx, rows, tag):
                     confirmed.add(i)           # something else than a duration is wrong now: keep it
                 elif load_ms(rows[i]) <= LOW_JITTER_MS:
                     confirmed.add(i)           # persists in a quiet window
+                elif time_only(rows[i]) and prop_excess(rows[i]) > 4 * load_ms(rows[i]):
+                    confirmed.add(i)           # the property's own bound is exceeded by more than the measured load explains
             # wide-margin test for the rest
             rest = [i for i in still if i not in confirmed]
             if rest:
@@ -502,8 +520,7 @@ def settle(ctx, rows, tag):
                     EXTRA_SLACK[0] = 0
                 for k, i in enumerate(rest):
                     o = rows[i]
-                    b = time_bound(o)
-                    over_bound = b is not None and o["dur_ms"] > b + SLACK_MS + 250 + 4 * jitter_slack(o)
+                    over_bound = prop_excess(o) > 250 + 12 * load_ms(o)
                     if 4 in sub.get(k, []) or over_bound:
                         wide[i] += 1
             pending = [i for i in still if i not in confirmed]
